@@ -92,7 +92,7 @@ func (C17) Runs(tier string) uint64 {
 	if tier == "thorough" {
 		return 2000000
 	}
-	return 50000
+	return 40000
 }
 
 var sharedOps = []string{"ConditionExpr", "TimeRangeMethods", "Reduce", "String", "Clone", "CloneExpr", "WalkFunc", "WalkNil", "Eval", "EvalBool", "EvalFields", "Reduce", "ReduceExpr", "RewriteFields", "ConditionExpr", "EvalType", "TypeValuerEval", "FieldDimensions", "ColumnNames", "FieldExprByName", "Names", "AliasNames", "Measurements", "RequiredPrivileges", "HasWildcard", "ExprNames", "HasTimeExpr", "TimeAscending", "ContainsVarRef", "IsSelector", "BinaryExprName", "Normalize", "TimeRangeMethods", "PartitionExpr", "ConjunctionsRoundTrip", "SortFields", "ListStrings"}
@@ -189,7 +189,14 @@ func (C17) NewPlan(r *core.Rand, tier string, i uint64) interface{} {
 		p.EndPick = append(p.EndPick, r.Intn(8))
 	}
 	p.TwinFirst = r.Chance(1, 3)
-	p.FreshTwin = r.Chance(1, freshTwinDen)
+	den := freshTwinDen
+	if den == 0 {
+		den = 200 // quick: a fresh process costs ~0.3 s under the race detector
+		if tier == "thorough" {
+			den = 50
+		}
+	}
+	p.FreshTwin = r.Chance(1, den)
 	if r.Chance(1, 4) {
 		p.SharedMapper = true
 		p.SharedSchema = gen.GenSchema(r)
@@ -759,12 +766,12 @@ func (C17) Exec(pi interface{}) *core.RunResult {
 }
 
 // freshTwinDen: one run in freshTwinDen also computes its reference results in a fresh process
-// (VERIF_FRESH_TWIN_DEN overrides it; the thorough tier is long enough for the default).
+// (default: 1 in 200 in the quick tier, 1 in 50 in the thorough tier; VERIF_FRESH_TWIN_DEN overrides).
 var freshTwinDen = func() int {
 	if v, err := strconv.Atoi(os.Getenv("VERIF_FRESH_TWIN_DEN")); err == nil && v > 0 {
 		return v
 	}
-	return 60
+	return 0
 }()
 
 // FreshOut is one reference result computed by `vsimeng twin` in a fresh process.
